@@ -218,16 +218,16 @@ func stringsText(ss []string) string {
 // ---- per-kind calls ---------------------------------------------------------
 
 type inst struct {
-	proj  *Project
-	js    *jschema.JSchema
-	rs    *regex.RSchema
-	en    *enum.Enum
+	proj     *Project
+	js       *jschema.JSchema
+	rs       *regex.RSchema
+	en       *enum.Enum
 	donor    *inst           // registers the donor's type and rule objects instead of fresh ones (Project.ShareWith)
 	ruleObjs []*enum.Enum    // the rule objects registered with js, in declared order
 	typeObjs []schema.Schema // the type objects registered with js, in declared order
-	built bool
-	dead  bool // an injected failure hit this object: no further oracle on it
-	nEx   int  // number of Example() calls made on an rschema
+	built    bool
+	dead     bool // an injected failure hit this object: no further oracle on it
+	nEx      int  // number of Example() calls made on an rschema
 }
 
 const maxRegexExamples = 4
